@@ -4,6 +4,7 @@
 -/
 import CimbaModel.Sim.Basic
 import CimbaModel.Sim.S1Demo
+import CimbaModel.Sim.S1WaitRun
 import CimbaModel.HashHeap.Orders
 
 namespace CimbaModel.Props.C09
@@ -178,5 +179,145 @@ example : DeadRec demoWorld := deadRec_init _ (fun p hp => by
   | 1 => exact absurd (by decide) hp
   | 2 => exact absurd (by decide) hp
   | n + 3 => simp [demoWorld, World.proc])
+
+/-! ### the registration invariant of `wait_process` -/
+
+/-- **`WaitersInv`** (`Sim.WInv`), in the vocabulary of the model.  A process registered on `p`'s waiter list awaits
+    the end of `p`; nobody is registered twice; a process awaits at most one process end and only while suspended in
+    `wait_process` on exactly that process; at most one process-end wake-up is pending per process, and a process
+    with such a wake-up pending still awaits a process end and is registered nowhere.
+    (The converse of the first clause — "awaits `p` ⇒ registered with `p`" — does not hold between the end of `p` and
+    the waiter's resumption in the same instant: the list has been emptied, the wake-up is pending; see the example
+    below.) -/
+theorem waitersInv_iff (w : World) :
+    WInv w ↔
+      (∀ p q, q ∈ (w.proc p).waiters → Await.proc p ∈ (w.proc q).awaits) ∧
+      (∀ p, (w.proc p).waiters.Nodup) ∧
+      (∀ q, ((w.proc q).awaits.filterMap procOf).length ≤ 1 ∧
+        ∀ p, Await.proc p ∈ (w.proc q).awaits → (w.proc q).blocked = some (.waitProc p)) ∧
+      (∀ q, (w.ev.pending.countP fun e => e.item.a = aProc && e.item.b = q + 1) ≤ 1) ∧
+      (∀ q, (∃ e ∈ w.ev.pending, e.item.a = aProc ∧ e.item.b = q + 1) →
+        (∃ p, Await.proc p ∈ (w.proc q).awaits) ∧ ∀ p, q ∉ (w.proc p).waiters) ∧
+      (∀ e ∈ w.ev.pending, e.item.a = aProc → 1 ≤ e.item.b) := by
+  have hmem : ∀ q p, p ∈ w.pa q ↔ Await.proc p ∈ (w.proc q).awaits := by
+    intro q p
+    unfold World.pa
+    rw [List.mem_filterMap]
+    constructor
+    · rintro ⟨a, ha, e⟩
+      cases a <;> simp_all [procOf]
+    · intro h; exact ⟨_, h, rfl⟩
+  have hnp : ∀ q, 0 < np w q ↔ ∃ e ∈ w.ev.pending, e.item.a = aProc ∧ e.item.b = q + 1 := by
+    intro q
+    unfold np
+    rw [cnt_pos_iff]
+    constructor
+    · rintro ⟨e, he, h⟩; unfold isAProc at h; simp at h; exact ⟨e, he, h⟩
+    · rintro ⟨e, he, h⟩; exact ⟨e, he, by unfold isAProc; simp [h]⟩
+  constructor
+  · intro h
+    refine ⟨fun p q hm => (hmem q p).1 (h.reg q p hm), h.nodup, ?_, h.one, ?_, h.subj⟩
+    · intro q
+      rcases h.frame q with e | ⟨p0, e, b⟩
+      · refine ⟨by show (w.pa q).length ≤ 1; rw [e]; simp, ?_⟩
+        intro p hp; have := (hmem q p).2 hp; rw [e] at this; cases this
+      · refine ⟨by show (w.pa q).length ≤ 1; rw [e]; simp, ?_⟩
+        intro p hp
+        have := (hmem q p).2 hp
+        rw [e] at this
+        rw [List.mem_singleton.1 this]; exact b
+    · intro q hq
+      obtain ⟨a, b⟩ := h.woken q ((hnp q).2 hq)
+      refine ⟨?_, b⟩
+      cases hl : w.pa q with
+      | nil => exact absurd hl a
+      | cons p l => exact ⟨p, (hmem q p).1 (by rw [hl]; exact List.mem_cons_self)⟩
+  · rintro ⟨h1, h2, h3, h4, h5, h6⟩
+    refine ⟨fun p q hm => (hmem p q).2 (h1 q p hm), h2, ?_, h4, ?_, h6⟩
+    · intro p
+      have hl : (w.pa p).length ≤ 1 := (h3 p).1
+      cases e : w.pa p with
+      | nil => exact Or.inl rfl
+      | cons q l =>
+        right
+        rw [e] at hl
+        have : l = [] := by
+          cases l with
+          | nil => rfl
+          | cons _ _ => simp at hl
+        subst this
+        exact ⟨q, rfl, (h3 p).2 q ((hmem p q).1 (by rw [e]; exact List.mem_cons_self))⟩
+    · intro q hq
+      obtain ⟨⟨p, hp⟩, b⟩ := h5 q ((hnp q).1 hq)
+      refine ⟨?_, b⟩
+      intro e
+      have := (hmem q p).2 hp
+      rw [e] at this; cases this
+
+/-- the registration invariant holds in every world in which nobody waits for a process end -/
+theorem waitersInv_init (w : World) (hw : ∀ p, (w.proc p).waiters = [])
+    (ha : ∀ q p, Await.proc p ∉ (w.proc q).awaits) (he : ∀ e ∈ w.ev.pending, e.item.a ≠ aProc) : WInv w := by
+  have hpa : ∀ q, w.pa q = [] := by
+    intro q
+    unfold World.pa
+    rw [List.filterMap_eq_nil_iff]
+    intro a ham
+    cases a with
+    | proc p => exact absurd ham (ha q p)
+    | time h => rfl
+    | guard g => rfl
+    | event h => rfl
+  have hnp : ∀ q, np w q = 0 := by
+    intro q
+    unfold np
+    rw [cnt_zero_iff]
+    intro e hem
+    unfold isAProc
+    have := he e hem
+    simp [this]
+  refine ⟨?_, ?_, fun p => Or.inl (hpa p), ?_, ?_, ?_⟩
+  · intro p q hm; rw [hw] at hm; cases hm
+  · intro q; rw [hw]; exact List.nodup_nil
+  · intro p; rw [hnp]; omega
+  · intro p hp; rw [hnp] at hp; omega
+  · intro e hem h; exact absurd h (he e hem)
+
+/-- every command keeps it (`p` executing, awaiting no process end — which the interpreter guarantees, see
+    `waitersInv_dispatch`) -/
+theorem waitersInv_execCmd {w : World} (h : WInv w) (p : Pid) (hp : p < w.procs.size) (hpa : w.pa p = []) (c : Cmd) :
+    WInv (execCmd w p c).1 := (winv_execCmd h p hp hpa c).1
+
+/-- the end of any process keeps it -/
+theorem waitersInv_finishProc {w : World} (h : WInv w) (p : Pid) (val : Int) (stopped : Bool) :
+    WInv (finishProc w p val stopped) := (winv_finishProc h p val stopped).1
+
+/-- **every dispatched event keeps it**, whatever the woken process then executes -/
+theorem waitersInv_dispatch {w w' : World} (h : WInv w) (hd : DeadRec w) (hdis : dispatch w = some w') : WInv w' :=
+  winv_dispatch h hd hdis
+
+/-- it holds at every instant of every run -/
+theorem waitersInv_runAll {w : World} (h : WInv w) (hd : DeadRec w) (fuel : Nat) : WInv (runAll fuel w) :=
+  winv_runAll fuel h hd
+
+/-- **`end_notifies_once` at full strength**: under the invariant, when `p` ends every registered waiter gets exactly
+    one new process-end wake-up (and had none pending before), nobody else gets one -/
+theorem end_notifies_exactly_once {w : World} (h : WInv w) (p : Pid) (sig : Int) (q : Pid) :
+    np (wakeWaiters w p sig) q = if q ∈ (w.proc p).waiters then 1 else np w q := by
+  rw [wakeWaiters_npcount]
+  split
+  · rename_i hm
+    have h0 : np w q = 0 := by
+      apply Classical.byContradiction
+      intro hn
+      exact (h.woken q (by omega)).2 p hm
+    rw [h0, count_eq_one_of_nodup_mem _ _ (h.nodup p) hm]
+  · rename_i hm
+    rw [List.count_eq_zero.2 hm]; rfl
+
+/-- the converse registration clause fails exactly in the window between the end and the wake-up: after process 0 of
+    the demo world has been stopped, process 2 still awaits it, its wake-up is pending, the waiter list is empty -/
+example : ((finishProc demoWaiting 0 7 true).proc 2).awaits = [.proc 0] ∧
+    ((finishProc demoWaiting 0 7 true).proc 0).waiters = [] ∧
+    np (finishProc demoWaiting 0 7 true) 2 = 1 := by decide
 
 end CimbaModel.Props.C09
